@@ -182,6 +182,9 @@ def run_exec(ck, pidnum, bias, quick_n=500, thorough_n=12000, tiny=None, extra=N
     # the tie lemma between the hand-written submit_attempts and the text generated from
     # _StepRecord.execute/restart/_execute/mark_* is an obligation of every execution property
     ck.build_proofs(extra_targets=["theories/Exec/ExecGen2Proofs.vo"])
+    # Props/ExecMonitor.v: the trace monitor evaluated below on the implementation's trace raises NO code at all
+    # on the model's own trace (monitor_silent), for every graph, config and valid poll-input list
+    ck.build_proofs(props="ExecMonitor")
     from translate import regen
     ck.notes["tcode"] = {k: (v.get("ok"), v.get("not_translatable")) for k, v in regen.status().items()}
     rng = random.Random(ck.seed * 7919 + pidnum)
